@@ -167,6 +167,32 @@ class LeSet:
         return bool(self.d)
 
 
+class OrderedSet:
+    """insertion-ordered set (iteration order must not depend on string hashing)"""
+    __slots__ = ("d",)
+
+    def __init__(self, items=None):
+        self.d = dict.fromkeys(items) if items else {}
+
+    def add(self, x):
+        self.d[x] = None
+
+    def discard(self, x):
+        self.d.pop(x, None)
+
+    def __contains__(self, x):
+        return x in self.d
+
+    def __iter__(self):
+        return iter(list(self.d))
+
+    def __len__(self):
+        return len(self.d)
+
+    def __bool__(self):
+        return bool(self.d)
+
+
 class Cons:
     """immutable-ish set of constraints"""
 
@@ -174,7 +200,7 @@ class Cons:
 
     def __init__(self, le=None, eq=None):
         self.le = LeSet(le)
-        self.eq = set(eq) if eq else set()
+        self.eq = OrderedSet(eq)
 
     def copy(self):
         return Cons(self.le, self.eq)
@@ -251,7 +277,7 @@ class Cons:
                         new_le.add(cc2)
                 else:
                     new_le.add(c)
-            new_eq = set()
+            new_eq = OrderedSet()
             for c in self.eq:
                 if c is e:
                     continue
@@ -393,7 +419,7 @@ class Cons:
         return True
 
     def key(self):
-        return (frozenset(self.le.d.values()), frozenset(self.eq))
+        return (frozenset(self.le.d.values()), frozenset(self.eq.d))
 
 
 def sup(lf, bounds_of):
